@@ -23,12 +23,50 @@ from props.c05 import gen_csg
 SIZES = [1, 2, 3, 15, 16, 17, 31, 32, 33, 64, 255, 256]
 
 
+def gen_tie_product(rng, cid):
+    """op(tied min/max, bare axis): kernels whose derivative reads operand VALUES (mul, div, atan2) next to a
+    feature-replicating tie -- the slot-replication state of X / Y / Z rows must be refreshed per query"""
+    p = exprlib.Prog(cid)
+    ax = [p.emit("x", "axis"), p.emit("y", "axis"), p.emit("z", "axis")]
+    p.usize = [1, 1, 1]; p.mentions = [set(), set(), set()]
+    a = rng.randrange(3)
+    b = rng.choice([k for k in range(3) if k != a])
+    kind = rng.random()
+    if kind < 0.5:
+        na = p.emit(f"un OP_NEG {ax[a]}", "tree")
+        tie = p.emit(f"bin {rng.choice(['OP_MAX', 'OP_MIN'])} {ax[a]} {na}", "tree")       # ties on axis a = 0
+        p.tie_gen = lambda: [0.0 if k == a else rng.choice([1.0, -1.0, 3.0, 0.5, rng.uniform(-3, 3)]) for k in range(3)]
+    else:
+        c = [k for k in range(3) if k not in (a, b)][0]
+        tie = p.emit(f"bin {rng.choice(['OP_MAX', 'OP_MIN'])} {ax[a]} {ax[c]}", "tree")    # ties on a = c
+        def tg():
+            v = rng.choice([0.0, 1.0, -0.5, rng.uniform(-2, 2)])
+            q = [0.0, 0.0, 0.0]
+            q[a] = v; q[c] = v; q[b] = rng.choice([1.0, -1.0, 3.0, 0.5, rng.uniform(-3, 3)])
+            return q
+        p.tie_gen = tg
+    other = ax[b]
+    if rng.random() < 0.3:
+        other = p.emit(f"bin OP_ADD {ax[b]} {p.emit('const 3f000000', 'const')}", "tree")
+    op = rng.choice(["OP_MUL", "OP_MUL", "OP_DIV", "OP_ATAN2"])
+    l, r = (tie, other) if rng.random() < 0.5 else (other, tie)
+    root = p.emit(f"bin {op} {l} {r}", "tree")
+    if rng.random() < 0.4:
+        root = p.emit(f"bin {rng.choice(['OP_ADD', 'OP_SUB', 'OP_MIN'])} {root} {ax[rng.randrange(3)]}", "tree")
+    p.root = root
+    p.nvars = 0
+    return p
+
+
 def gen_history(rng, p, nq):
     toks = []
     kinds = set()
     tie_pts = [[0.0, 0.0, 0.0], [1.0, 1.0, 0.0], [0.5, 0.5, 0.5], [-1.0, 1.0, 0.0]]
+    tie_gen = getattr(p, "tie_gen", None)
 
     def pt():
+        if tie_gen is not None and rng.random() < 0.6:
+            return tie_gen()
         if rng.random() < 0.35:
             return rng.choice(tie_pts)
         return [rng.choice([0.0, 1.0, -1.0, 0.5, rng.uniform(-2, 2)]) for _ in range(3)]
@@ -84,7 +122,9 @@ def run(replay=None):
     progs = []
     for k in range(500 if quick else 20000):
         r = ck.rng.random()
-        if r < 0.5:
+        if r < 0.15:
+            p = gen_tie_product(ck.rng, f"h{k}")
+        elif r < 0.55:
             p = gen_csg(ck.rng, f"h{k}", ck.rng.randint(2, 6))
             # wrap some CSG results in sqrt / abs / square to reach kernels that read their own result row
             if ck.rng.random() < 0.5:
